@@ -1,4 +1,96 @@
-(* C09 -- unrolling equals iterated execution.  Statements only; proofs in Proofs/UnrollProofs.v. *)
-From stdpp Require Import strings gmap sets.
-From CG Require Import Model.Unroll.
+(* C09 -- unrolling equals iterated execution.  Statements only; proofs in Proofs/UnrollProofs.v.
+
+   Model: Model/Unroll.v `unroll` / `sequential_unroll` (API-level mirrors of tx.unroll / tx.sequential_unroll),
+   `unroll_closed` / `unroll_iomap` (closed form of the result of unroll), `run` (iterated evalc of the sequential machine)
+   and `is_run` (the same machine, relationally).  Proved, for ALL acyclic circuits, ALL n and ALL state pairings: the
+   simulation clause (by induction on the step), the free-input clause and the io-map shape of the closed form, and that
+   `run` is the unique run.  Not proved, decided per case by Run_C09.agree/holds: `C09_closed_form_full` (API-level model =
+   closed form), lint-cleanliness of the result, and the whole of `C09_sequential_unroll_full`. *)
+From stdpp Require Import strings gmap sets fin_sets.
+From CG Require Import Base.Oracle Model.Unroll Model.Lint Proofs.UnrollProofs.
 Open Scope string_scope.
+
+(* the node the map gives for io o at step t carries the value obtained by running c for t+1 steps, the initial state
+   and the per-step inputs being read off the unrolled circuit's own free inputs *)
+Theorem C09_unroll_simulates_partial : ∀ c n sio prefix w,
+  closed c → acyclic c → free_are_inputs c →
+  NoDup (unroll_nodes c n sio prefix).*1 →
+  Forall (λ kv, kv.1 ∈ io_of c ∧ kv.2 ∈ inputs c) sio →
+  consistent (unroll_closed c n sio prefix) w →
+  let st := λ v, w (io_name v prefix 0) in
+  let ins := λ t i, w (io_name i prefix t) in
+  ∀ o t, o ∈ io_of c → t < n → w (io_name o prefix t) = run c sio t st ins o.
+Proof. exact unroll_closed_simulates. Qed.
+Print Assumptions C09_unroll_simulates_partial.
+
+(* the io map of the closed form: io_map[io][t] = <io>_<prefix>_<t>, for every io of c *)
+Theorem C09_iomap_partial : ∀ c n prefix,
+  dom (unroll_iomap c n prefix) = io_of c ∧
+  ∀ io t, io ∈ io_of c → t < n → unroll_iomap c n prefix !! io ≫= (.!! t) = Some (io_name io prefix t).
+Proof. intros. split; [apply unroll_iomap_dom|apply unroll_iomap_lookup]. Qed.
+Print Assumptions C09_iomap_partial.
+
+(* free inputs are exactly the step-0 state inputs and the per-step copies of the other inputs *)
+Theorem C09_free_inputs_partial : ∀ c n sio prefix x, NoDup (unroll_nodes c n sio prefix).*1 →
+  (x ∈ inputs (unroll_closed c n sio prefix) ↔
+   ∃ t io, t < n ∧ io ∈ inputs c ∧ x = io_name io prefix t ∧ (state_src sio io = None ∨ t = 0)).
+Proof. intros. by apply unroll_closed_inputs. Qed.
+Print Assumptions C09_free_inputs_partial.
+
+(* `run` (iterated evalc) is a run of the machine, and runs are unique: the relational and the executable semantics coincide *)
+Theorem C09_run_is_run : ∀ c sio st ins t, closed c → acyclic c → free_are_inputs c →
+  is_run c sio st ins t (run c sio t st ins).
+Proof. intros. by apply run_is_run. Qed.
+Print Assumptions C09_run_is_run.
+Theorem C09_run_unique : ∀ c sio st ins t x y, closed c → acyclic c → free_are_inputs c → (∀ kv, kv ∈ sio → kv.1 ∈ dom c) →
+  is_run c sio st ins t x → is_run c sio st ins t y → agrees (dom c) x y.
+Proof. intros. by eapply is_run_unique. Qed.
+Print Assumptions C09_run_unique.
+(* evalc needs no per-case certificate on closed acyclic circuits *)
+Theorem C09_evalc_consistent : ∀ c a, closed c → acyclic c → consistent c (evalc c a).
+Proof. exact evalc_consistent. Qed.
+Print Assumptions C09_evalc_consistent.
+
+(* --- what is NOT proved (visible; decided per case by Run_C09) --- *)
+Definition C09_closed_form_full : Prop := ∀ C n sio prefix,
+  lint_clean C → bb_free C → closed (c_g C) → acyclic (c_g C) → 1 ≤ n → sio_ok (c_g C) sio → unroll_names_ok (c_g C) n sio prefix →
+  unroll C n sio prefix = Ok ({| c_name := "circuit"; c_g := unroll_closed (c_g C) n sio prefix; c_bbs := ∅ |}, unroll_iomap (c_g C) n prefix).
+Definition C09_result_lint_clean_full : Prop := ∀ C n sio prefix,
+  lint_clean C → closed (c_g C) → sio_ok (c_g C) sio → unroll_names_ok (c_g C) n sio prefix →
+  lint_clean {| c_name := "circuit"; c_g := unroll_closed (c_g C) n sio prefix; c_bbs := ∅ |}.
+(* sequential_unroll: refinement to the cycle-accurate simulator of the flop circuit (state = Q pins, next state = D pins),
+   for every initial_values form; stated through unroll on the stripped circuit *)
+Definition C09_sequential_unroll_full : Prop := ∀ C n d q ign afo iv ru prefix U m,
+  lint_clean C → closed (c_g C) → acyclic (c_g C) → 1 ≤ n →
+  sequential_unroll C n d q ign afo iv ru prefix = Ok (U, m) →
+  lint_clean U ∧
+  (∀ b t, b ∈ dom (c_bbs C) → t < n → (∃ x, m !! pre b d ≫= (.!! t) = Some x ∧ (x ∈ outputs (c_g U) ↔ afo = true))) ∧
+  ∀ w, consistent (c_g U) w →
+    ∀ t, t < n → ∃ x, consistent (c_g C) x ∧
+      (∀ o io, o ∈ outputs (c_g C) → m !! o ≫= (.!! t) = Some io → w io = x o) ∧
+      (∀ b io, b ∈ dom (c_bbs C) → m !! pre b d ≫= (.!! t) = Some io → w io = x (pin b d)) ∧
+      (∀ b io, b ∈ dom (c_bbs C) → m !! pre b q ≫= (.!! t) = Some io → w io = x (pin b q)) ∧
+      (∀ b io io', b ∈ dom (c_bbs C) → S t < n → m !! pre b d ≫= (.!! t) = Some io → m !! pre b q ≫= (.!! (S t)) = Some io' → w io' = w io).
+
+(* --- non-vacuity: a toggle/accumulate machine  o = s xor a,  state s <- o, two steps --- *)
+Definition ex_c : circuit :=
+  {[ "a" := mk_node Input false ∅ ]} ∪ {[ "s" := mk_node Input false ∅ ]} ∪ {[ "o" := mk_node Xor true {[ "a"; "s" ]} ]}.
+Definition ex_C := {| c_name := "t"; c_g := ex_c; c_bbs := ∅ |}.
+Example C09_ex_hyps : closed ex_c ∧ acyclic ex_c ∧ free_are_inputs ex_c ∧ NoDup (unroll_nodes ex_c 2 [("o", "s")] "cg_unroll").*1 ∧
+  Forall (λ kv, kv.1 ∈ io_of ex_c ∧ kv.2 ∈ inputs ex_c) [("o", "s")].
+Proof.
+  split; [apply closedb_spec; vm_compute; reflexivity|].
+  split; [apply acyclicb_sound; vm_compute; reflexivity|].
+  split; [apply (bool_decide_unpack _); vm_compute; reflexivity|].
+  split; [apply (bool_decide_unpack _); vm_compute; reflexivity|].
+  apply (bool_decide_unpack _); vm_compute; reflexivity.
+Qed.
+Example C09_ex_model_is_closed_form :
+  unroll ex_C 2 [("o", "s")] "cg_unroll" =
+    Ok ({| c_name := "circuit"; c_g := unroll_closed ex_c 2 [("o", "s")] "cg_unroll"; c_bbs := ∅ |}, unroll_iomap ex_c 2 "cg_unroll") ∧
+  size (unroll_closed ex_c 2 [("o", "s")] "cg_unroll") = 12.
+Proof. split; apply (bool_decide_unpack _); vm_compute; reflexivity. Qed.
+(* the machine really runs: with s0 = 0, a0 = 1, a1 = 1 the output is 1 then 0 *)
+Example C09_ex_run : let ins := λ t i, bool_decide (i = "a") in
+  run ex_c [("o", "s")] 0 (λ _, false) ins "o" = true ∧ run ex_c [("o", "s")] 1 (λ _, false) ins "o" = false.
+Proof. split; vm_compute; reflexivity. Qed.
